@@ -1,6 +1,6 @@
 (* C20 -- sending applies backpressure and never hangs on a dead connection.  Statements only; proofs in Proofs/C20_*.v. *)
 From Coq Require Import List Arith Bool.
-From EN Require Import Conc.FlowControl Proofs.C20_flow Proofs.C20_adapter Gen.ParamsC20 Proofs.C20_repo Proofs.C20_closed.
+From EN Require Import Conc.FlowControl Proofs.C20_flow Proofs.C20_adapter Gen.ParamsC20 Proofs.C20_repo Proofs.C20_closed Proofs.C20_live.
 Import ListNotations.
 
 (* WriteFlowControl, every label sequence (drain / pause / resume / connection_lost / is_closing / cancel of ANY parked
@@ -114,6 +114,18 @@ Theorem send_returns_only_when_flushed_in_repo :
     ad_step a l = Some (a', o) -> In (ODrain t ROk) o -> bytes_of t (a_buf a') = 0.
 Proof. exact send_returns_only_when_flushed_in_repo_proof. Qed.
 Print Assumptions send_returns_only_when_flushed_in_repo.
+
+(* The liveness half: the send returns when flushed AND it does return once flushed.  Under H_pause, every label
+   sequence: whenever the transport is alive and its buffer is empty (the kernel took everything), writing is not paused
+   and NO sender is parked: every sender that was suspended has been completed by resume_writing (its wake-up is
+   enabled, all_waiters_resumed).  A sender left suspended after the operating system took all its bytes is impossible. *)
+Theorem send_resumes_once_flushed :
+  forall (c : tcfg) (n : nat) (ls : list alabel) (a : ad),
+    Hc c -> Forall (ok_label c) ls -> ad_run (ad_init c n) ls = Some a ->
+    a_dead a = false -> a_buf a = [] ->
+    w_paused (a_w a) = false /\ forall t f, task (a_w a) t = Some (TParked f FPending) -> False.
+Proof. exact send_resumes_once_flushed_proof. Qed.
+Print Assumptions send_resumes_once_flushed.
 
 (* A send on a closed / dead adapter never suspends for ever.  ANY transport configuration, every label sequence.  Once the
    transport is dead (close() with nothing buffered, the end of a closing flush, _force_close / abort):
